@@ -71,6 +71,26 @@ def run_case(case, cl=None):
                 src.append(prior[-1 - call["back"] % len(prior)])
                 cl.add("earlier_call_repeated")
             continue
+        if call["op"] == "sibling":
+            # an earlier call issued again through a SIBLING command with the very
+            # same arguments (other heater, other tool API, other coolant mode):
+            # statements must not be remembered by their arguments alone
+            prior = [c for c in src if c["op"] in SIBLINGS or
+                     (c["op"] == "halt" and c.get("args", [None])[0] in HALT_SIBLINGS)]
+            if prior:
+                c = prior[-1 - call["back"] % len(prior)]
+                if c["op"] == "halt":
+                    c2 = dict(c, args=[HALT_SIBLINGS[c["args"][0]]] + list(c["args"][1:]))
+                elif c["op"] == "coolant_on":
+                    c2 = dict(c, args=["flood" if c["args"][0] == "mist" else "mist"])
+                else:
+                    c2 = dict(c, op=SIBLINGS[c["op"]])
+                    if c["op"] in ("tool_on", "power_on"):
+                        c2["args"] = [("cw" if c["op"] == "power_on" else "constant")] + \
+                            list(c["args"][1:])
+                src.append(c2)
+                cl.add("sibling_command_same_arguments")
+            continue
         src.append(call)
     calls = []
     for call in src:      # flatten contexts into enter/exit markers
@@ -139,6 +159,15 @@ def replay(case):
     run_case(case)
 
 
+SIBLINGS = {"set_bed_temperature": "set_chamber_temperature",
+            "set_chamber_temperature": "set_hotend_temperature",
+            "set_hotend_temperature": "set_bed_temperature",
+            "set_feed_rate": "set_tool_power", "set_tool_power": "set_feed_rate",
+            "tool_on": "power_on", "power_on": "tool_on", "coolant_on": "coolant_on"}
+HALT_SIBLINGS = {"wait-for-bed": "wait-for-chamber", "wait-for-chamber": "wait-for-hotend",
+                 "wait-for-hotend": "wait-for-bed"}
+
+
 def strategy(n):
     from hypothesis import strategies as st
     hook = st.booleans().map(lambda b: {"op": "hook", "on": b})
@@ -149,7 +178,8 @@ def strategy(n):
         "dp": st.integers(3, 9), "hook0": st.sampled_from([False, False, True]),
         "calls": st.lists(hist.weighted(
             (8, sh.call_strategy()), (1, hook), (1, ctx),
-            (2, st.integers(0, 3).map(lambda b: {"op": "repeat", "back": b}))),
+            (2, st.integers(0, 3).map(lambda b: {"op": "repeat", "back": b})),
+            (2, st.integers(0, 3).map(lambda b: {"op": "sibling", "back": b}))),
             min_size=1, max_size=n)})
 
 
